@@ -580,6 +580,8 @@ class World(object):
         self.server_static = None
         import threading as _th
         self._cipher_lock = _th.RLock()   # harness state only: writes reaching the dispatcher from several threads are taken one by one
+        self.threaded_sends = False
+        self.sender_threads = []
         self.hold_pump = False     # deferred events stay queued (the stack's loop has not turned yet)
         self.trailing = {}         # phone -> bytes appended to the next frame delivered to it (full wiring)
         self.chunker = None        # optional: fn(bytes) -> [chunks] for server->client bytes in the full wiring
@@ -935,9 +937,27 @@ class World(object):
                 return False
             time.sleep(0.0002)
 
+    def join_senders(self, timeout=30.0):
+        """Threaded sends: wait for the application's sender threads; returns False when one is stuck."""
+        import time as _time
+        t0 = _time.time()
+        for t_ in list(self.sender_threads):
+            t_.join(max(0.01, timeout - (_time.time() - t0)))
+        alive = [t_ for t_ in self.sender_threads if t_.is_alive()]
+        self.sender_threads = alive
+        if alive:
+            self.count("sender_threads_stuck")
+        return not alive
+
     def run(self, max_steps=20000):
         while self.steps < max_steps:
             if not self.step():
+                if self.sender_threads:
+                    # nothing to do for the scheduler, but a sender may still be on its way down: wait for it and look again
+                    if not self.join_senders():
+                        return False
+                    if self.enabled():
+                        continue
                 # quiescent; script actions whose precondition cannot become true are skipped
                 if self.script_pos < len(self.script):
                     self.log.append(("skipped", self.script[self.script_pos]))
@@ -969,6 +989,8 @@ class World(object):
             return c.ready()
         if op in ("restart", "reinstall"):
             # only between messages: nothing at all is in flight (stronger than the quantifier asks, hence sound)
+            if self.sender_threads and not self.join_senders():
+                return False
             return not self.enabled_no_app()
         if op == "connect":
             c = self.clients[a["who"]]
@@ -1009,7 +1031,16 @@ class World(object):
             ent = a["build"]()
             a["entity_id"] = ent.getId()
             self.log.append(("app-send", a["who"], a.get("uid"), ent.getId()))
-            c.guarded(lambda: c.app.toLower(ent), "send:" + a.get("kind", "?"))
+            if self.threaded_sends:
+                # the application sends from its own thread while the scheduler (the network thread) goes on delivering
+                import threading as _th
+                t_ = _th.Thread(target=lambda: c.guarded(lambda: c.app.toLower(ent), "send:" + a.get("kind", "?")), name="verif-app-sender-%d" % len(self.sender_threads))
+                t_.daemon = True
+                self.sender_threads.append(t_)
+                t_.start()
+                self.count("threaded_sends")
+            else:
+                c.guarded(lambda: c.app.toLower(ent), "send:" + a.get("kind", "?"))
         elif op == "call":
             a["fn"](self)
         elif op == "wait-quiet":
